@@ -7,7 +7,7 @@ import model as M
 import runner as R
 
 RULE = ("images serialised by the independent AKAI writer from a random logical model: 1-2 partitions x 1-3 volumes x 0-6 sample files; every file's "
-        "sector chain contiguous / reversed / shuffled / interleaved with its neighbours' (head not the lowest sector included); directory as reserved-flag "
+        "volume-table slots packed or scattered over the 100 slots (inactive slots between active volumes, slot 99 used); sector chain contiguous / reversed / shuffled / interleaved with its neighbours' (head not the lowest sector included); directory as reserved-flag "
         "run (both flags) or as linked chain; PCM lengths from {0, 1, k*8192-140 bytes -2/0/+2 (file fills its last sector exactly), random}; start/end "
         "markers at the ends and inside; rates incl. 0 (=> 44100) and 65535; both sample type bytes; L/R pairs of equal and unequal length. Each image is "
         "exported by the real CLI and by the extracted Coq whole-image model (akai_export); both are compared with each other (paths, rate, channels, PCM) "
@@ -69,9 +69,23 @@ def gen_image(rng, tier):
                 files.append(AW.SampleFile(name=n, pcm=pcm, start=start, end=end, rate=rng.choice([0, 22050, 44100, 48000, 65535, 8000]),
                                            type_byte=0xF3 if t else 0x73, header_id=3 if t else 1, note=rng.randint(21, 108),
                                            cents=rng.randint(-128, 127), semi=rng.randint(-20, 50)))
+            # slots that are not sample files: deleted entry (type 0), file types the tool does not know, drum/effects files
+            if rng.random() < 0.4:
+                for g in range(rng.randint(1, 2)):
+                    ghost = AW.SampleFile(name="GH0ST%d" % g, type_byte=rng.choice([0x00, 0xF8, 0x74, 0x64, 0x78, 0x71]),
+                                          raw_body=bytes(rng.randrange(256) for _ in range(rng.randint(1, 300))))
+                    files.insert(rng.randint(0, len(files)), ghost)
+                meta["non_sample_slots"] = True
             vols.append(AW.Volume(vname, files, vtype=rng.choice([1, 3]), dir_style=rng.choice(["run", "run", "chain"]),
                                   res_flag=rng.choice([AW.SAT_RES_STD, AW.SAT_RES_V2])))
-        parts.append(AW.Partition(vols, size_sectors=size))
+        # volume-table slots: packed from the front, or scattered over the 100 slots (deleted volumes leave inactive slots behind)
+        slots = None
+        if rng.random() < 0.5:
+            slots = sorted(rng.sample(range(100), len(vols)))
+            if rng.random() < 0.3:
+                slots[-1] = 99
+            meta["volume_holes"] = True
+        parts.append(AW.Partition(vols, size_sectors=size, slots=slots))
     # allocation order
     mode = rng.choice(["contig", "reversed", "shuffled", "interleaved", "shuffled", "midswap", "midswap"])
     meta["alloc"] = mode
@@ -111,9 +125,10 @@ def expectation(parts):
     exp = {}
     for pi, p in enumerate(parts):
         for v in p.volumes:
-            names = [AW.displayed_name(f.name) for f in v.files]
+            samples = [f for f in v.files if f.is_sample]
+            names = [AW.displayed_name(f.name) for f in samples]
             for nm, src in NC.expected_pairs(names):
-                fs = [v.files[i] for i in src]
+                fs = [samples[i] for i in src]
                 rate = fs[0].rate or 44100
                 exp["%s/%s/%s.wav" % (chr(65 + pi), v.name, nm)] = (len(fs), rate, [f.window() for f in fs])
     return exp
@@ -213,6 +228,8 @@ def corpus_images():
     u = AW.SampleFile(name="LOWTUNE", pcm=struct.pack("<4H", 1, 2, 3, 4), note=24, semi=-128)
     out.append(("d16-unencodable-tuning", [AW.Partition([AW.Volume("V", [AW.SampleFile(name="FIRST", pcm=b"\x05\x00"), u,
                                                                          AW.SampleFile(name="LAST", pcm=b"\x06\x00")])], size_sectors=40)], None))
+    a, b, c = (AW.SampleFile(name=n, pcm=struct.pack("<2H", i, i + 1)) for i, n in enumerate(["ONE", "TWO", "THREE"]))
+    out.append(("volume-table-holes", [AW.Partition([AW.Volume("FIRST", [a]), AW.Volume("THIRD", [b]), AW.Volume("LAST", [c])], size_sectors=40, slots=[0, 2, 99])], None))
     return out
 
 
